@@ -19,6 +19,23 @@ enum TagFeature<'a> {
     CharacterTypeNgram(NgramFeature<&'a [u8]>),
 }
 
+#[cfg(feature = "verif-hooks")]
+impl TagFeature<'_> {
+    fn to_hook(&self) -> crate::verif_hooks::HookFeature {
+        use crate::verif_hooks::HookFeature;
+        match self {
+            Self::CharacterNgram(f) => HookFeature::CharNgram {
+                ngram: f.ngram.to_string(),
+                rel_position: f.rel_position,
+            },
+            Self::CharacterTypeNgram(f) => HookFeature::TypeNgram {
+                ngram: f.ngram.to_vec(),
+                rel_position: f.rel_position,
+            },
+        }
+    }
+}
+
 impl<'a> TagFeature<'a> {
     pub const fn char_ngram(ngram: &'a str, rel_position: isize) -> Self {
         Self::CharacterNgram(NgramFeature {
@@ -204,11 +221,23 @@ impl<'a> TagTrainer<'a> {
             }
             let quantize_multiplier = weight_max / f64::from((1 << (QUANTIZE_BIT_DEPTH - 1)) - 1);
 
+            #[cfg(feature = "verif-hooks")]
+            let mut hook_rec = crate::verif_hooks::TagClassifierRecord {
+                token: token.clone(),
+                category: i,
+                candidates: tags[i].clone(),
+                ..Default::default()
+            };
             for (i, &cls) in model.labels().iter().enumerate() {
                 bias[class_offset + usize::try_from(cls).unwrap()] = unsafe {
                     (model.label_bias(i32::try_from(i).unwrap()) / quantize_multiplier)
                         .to_int_unchecked::<i32>()
                 };
+                #[cfg(feature = "verif-hooks")]
+                hook_rec.biases.push((
+                    usize::try_from(cls).unwrap(),
+                    bias[class_offset + usize::try_from(cls).unwrap()],
+                ));
             }
             for (feature, fid) in feature_ids {
                 match feature {
@@ -224,6 +253,12 @@ impl<'a> TagTrainer<'a> {
                             let weight = unsafe {
                                 (raw_weight / quantize_multiplier).to_int_unchecked::<i32>()
                             };
+                            #[cfg(feature = "verif-hooks")]
+                            hook_rec.weights.push((
+                                feature.to_hook(),
+                                usize::try_from(cls).unwrap(),
+                                weight,
+                            ));
                             if weight == 0 {
                                 continue;
                             }
@@ -245,6 +280,12 @@ impl<'a> TagTrainer<'a> {
                             let weight = unsafe {
                                 (raw_weight / quantize_multiplier).to_int_unchecked::<i32>()
                             };
+                            #[cfg(feature = "verif-hooks")]
+                            hook_rec.weights.push((
+                                feature.to_hook(),
+                                usize::try_from(cls).unwrap(),
+                                weight,
+                            ));
                             if weight == 0 {
                                 continue;
                             }
@@ -256,6 +297,8 @@ impl<'a> TagTrainer<'a> {
                     }
                 }
             }
+            #[cfg(feature = "verif-hooks")]
+            crate::verif_hooks::record_tag_classifier(hook_rec);
             class_offset += tag_ids.len();
         }
 
